@@ -196,7 +196,7 @@ func runC20L2(r *core.Run) (*core.Violation, func() *core.Violation) {
 			if !x.closed {
 				st = append(st, l2Stim{"update", 3, func() {
 					actions--
-					nm := x.buildManifest(len(x.versions))
+					nm := x.nextManifest()
 					x.curManifest = nm
 					x.versions = append(x.versions, mfVersion{hash: canonicalHash(nm), from: x.s.Step, m: nm})
 					r.Ops++
